@@ -722,6 +722,20 @@ impl G {
                 prefix = fs;
             }
         }
+        // one case in ten: the fatal event ends a backlog of well over 128 KiB that arrives in the
+        // same readiness episode (an edge-triggered read has to go on until it would block)
+        if self.rng.chance(1, 10) {
+            if let Some(ch) = self.some_open() {
+                let mut big: Vec<FR> = Vec::new();
+                let n = self.rng.range(36, 60);
+                for i in 0..n {
+                    let len = self.rng.range(3000, 5000) as usize;
+                    big.extend(self.content(ch, 1, "", len, i));
+                }
+                big.extend(prefix);
+                prefix = big;
+            }
+        }
         // a client request still in a mailbox
         if let Some(ch) = self.some_open() {
             if self.rng.chance(1, 2) {
